@@ -210,3 +210,15 @@ func (r *Run) ProtoCase() (string, bool) {
 	th := r.Project.SnapshotThreshold
 	return coqfmt.App("KProto", coqfmt.Bool(nopres), coqfmt.Z(th), coqfmt.List(evs), coqfmt.List(rows)), true
 }
+
+func fromPack(t sim.CallRec) (map[string]int64, error) {
+	p, err := converter.FromChangePack(t.Req)
+	if err != nil {
+		return nil, err
+	}
+	m := map[string]int64{}
+	for k, v := range p.VersionVector {
+		m[k.String()] = v
+	}
+	return m, nil
+}
